@@ -607,8 +607,25 @@ def r11_8(ctx, counts) -> RuleResult:
             for m, st in sites:
                 if m.name in init_names or st.value is None:          # type: ignore[union-attr]
                     continue
+                # base attributes read by the value, directly or through locals of the method
+                local_reads: dict[str, set[str]] = {}
+                for _ in range(3):
+                    for a in sorted((y for y in walk_local(m.node) if isinstance(y, ast.Assign)),
+                                    key=lambda q: q.lineno):
+                        got = {x.attr for x in ast.walk(a.value) if isinstance(x, ast.Attribute)
+                               and dotted(x.value) == 'self'}
+                        for x in ast.walk(a.value):
+                            if isinstance(x, ast.Name) and x.id in local_reads:
+                                got |= local_reads[x.id]
+                        for t in a.targets:
+                            for e in (t.elts if isinstance(t, ast.Tuple) else [t]):
+                                if isinstance(e, ast.Name):
+                                    local_reads[e.id] = local_reads.get(e.id, set()) | got
                 reads = {x.attr for x in ast.walk(st.value)           # type: ignore[union-attr]
                          if isinstance(x, ast.Attribute) and dotted(x.value) == 'self'}
+                for x in ast.walk(st.value):                          # type: ignore[union-attr]
+                    if isinstance(x, ast.Name) and x.id in local_reads:
+                        reads |= local_reads[x.id]
                 for base in sorted(reads & set(writers)):
                     if base == d_attr:
                         continue
